@@ -7,6 +7,7 @@ CONSTANTS
   Kids = {"c1"}
   Family = "range"
   TTLs = {2}
+  LeaseKeys = {3}
   MaxNow = 0
 INVARIANT TypeOK
 CHECK_DEADLOCK FALSE
